@@ -14,6 +14,7 @@ import (
 type stdOpts struct {
 	IMBound   int  // operand deviation bound
 	FullShape bool // full shape alphabet
+	MinShape  bool // only {plain, static} shapes
 	SeqL      int
 	Bytes2    bool
 	Bytes3    bool
@@ -43,18 +44,21 @@ var extraEIPs = []struct {
 func forEachStdCase(w *fw.W, o stdOpts, fn func(cs *world.Case, family string)) bool {
 	specs := gen.StdOps()
 	shapes := gen.Shapes(o.FullShape)
+	if o.MinShape {
+		shapes = []gen.Shape{{}, {Static: true}, {MemWords: 3, RData: true}}
+	}
 	// IM
 	for _, f := range o.Forks {
 		for _, spec := range specs {
 			for _, sh := range shapes {
-				if !w.Mine() {
-					continue
-				}
 				if w.Expired() {
 					return false
 				}
 				spec, sh, f := spec, sh, f
 				gen.ExploreOperands(spec, o.IMBound, func(ops []*uint256.Int, choice []int) {
+					if !w.Mine() || w.Truncated {
+						return
+					}
 					code := gen.BuildIM(f, spec, sh, ops)
 					entry := "call"
 					if sh.Static {
@@ -83,6 +87,10 @@ func forEachStdCase(w *fw.W, o stdOpts, fn func(cs *world.Case, family string)) 
 			code := gen.BuildSeq(f, alpha, seq, o.SeqL)
 			cs := gen.StdCase(f, code, "call", o.Gas)
 			cs.Note = "SEQ " + seqName(alpha, seq)
+			fn(cs, "SEQ")
+			// the same program inside a static frame
+			cs = gen.StdCase(f, code, "staticcall", o.Gas)
+			cs.Note = "SEQ static " + seqName(alpha, seq)
 			fn(cs, "SEQ")
 		})
 		if !ok {
@@ -184,14 +192,14 @@ func forEachStdCase(w *fw.W, o stdOpts, fn func(cs *world.Case, family string)) 
 	if o.EIPs {
 		for _, e := range extraEIPs {
 			for _, spec := range specs {
-				if !w.Mine() {
-					continue
-				}
 				if w.Expired() {
 					return false
 				}
 				spec, e := spec, e
 				gen.ExploreOperands(spec, 1, func(ops []*uint256.Int, choice []int) {
+					if !w.Mine() || w.Truncated {
+						return
+					}
 					code := gen.BuildIM(e.Fork, spec, gen.Shape{}, ops)
 					cs := gen.StdCase(e.Fork, code, "call", o.Gas)
 					cs.ExtraEips = []int{e.EIP}
